@@ -2,6 +2,7 @@ import EinxModel.Driver.Util
 import EinxModel.Driver.Cse
 import EinxModel.Solve.CseTrees
 import EinxModel.Solve.CseCheck
+import EinxModel.Solve.CseCheck2
 open Lean Einx.Driver Einx.Solve
 
 /-! Request kind `cse_trees` (C02 / C16): the model of the whole of `stage2/cse.py` on stage-2 trees.
@@ -9,10 +10,13 @@ open Lean Einx.Driver Einx.Solve
 Request: `{"kind":"cse_trees","roots":[tree|null,…],"cse_concat":bool,"cse_in_brackets":bool}` (tree JSON as for
 `value_range`).  Answer: `{"ok":true,"out":[tree|null,…],"cands":[{"key":str,"occs":[[[root,path…],…],…]},…]}` or
 `{"ok":false,"error":msg}` when the model reaches one of the exceptions of the real code.
-`cse_check` (same request fields): `{"wf","used_ok","pairs_ok","check","events","used","filter_ok","unique_ids"}` (`filter_ok`, `unique_ids`: decidable
+`cse_check` (same request fields): `{"wf","used_ok","pairs_ok","check","events","used","filter_ok","unique_ids","reduced","input_ok","fresh_ok","root_dims_ok","copied_ok","shared_ok"}` (`filter_ok`, `unique_ids`: decidable
 forms of the proved facts `cse_trees_is_cse_step`, `candidates_unique_ids` — sanity checks of the model).
 `cse_enum` (same fields + `"order":"reverse"|"rotate"|"insertion"`): `{"result":{"ok",…},"unique_ids","candidates"}` — the
-model with another enumeration of the dict. -/
+model with another enumeration of the dict.
+`forest_sys` (`{"kind":"forest_sys","roots":[…]}`): `{"vars":[[name,min],…],"eqns":[[poly,poly],…]}` with
+`poly = [{"c":coef,"v":[name,…]},…]` — `forestSys roots`, compared by the harness with the equations the real
+`stage3.solve` hands to `util.solver.solve` (work package cse2). -/
 namespace Einx.Driver.CseTrees
 open Einx.Solve.CseT
 
@@ -56,6 +60,10 @@ def handle (j : Json) : R Json := do
                       ("pairs_ok", Json.bool (evs.all (fun a => evs.all (fun b => pairOK a b)))),
                       ("check", Json.bool (cseCheck opts roots)), ("events", jNat evs.length), ("used", jNat nUsed),
                       ("filter_ok", Json.bool (evs.all filtOKb)),
+                      -- the parts of `cseCheckReduced` (Solve/CseCheck2.lean; `cseCheck_of_reduced`)
+                      ("reduced", Json.bool (cseCheckReduced opts roots)), ("input_ok", Json.bool (inputOK roots)),
+                      ("fresh_ok", Json.bool (freshOK evs)), ("root_dims_ok", Json.bool (rootDimsOK evs)),
+                      ("copied_ok", Json.bool (copiedOK evs)), ("shared_ok", Json.bool (sharedOK evs)),
                       ("unique_ids", Json.bool (uniqueIds (candidates opts roots)))])
   | "cse_enum" =>
     -- C16: the model with another enumeration of the dict `str_to_common_expr` (`order`: "reverse" | "rotate")
@@ -71,6 +79,13 @@ def handle (j : Json) : R Json := do
       | .error e => Json.mkObj [("ok", Json.bool false), ("error", Json.str e)]
     pure (Json.mkObj [("result", res), ("unique_ids", Json.bool (uniqueIds (candidates opts roots))),
                       ("candidates", jNat (candidates opts roots).length)])
+  | "forest_sys" =>
+    -- the stage-3 value system `forestSys` of the theorems (Solve/CseCheck.lean) for a list `exprs1 ++ exprs2`
+    let roots ← parseRoots j
+    let sys := forestSys roots
+    let polyJ (p : Poly) : Json := jArr (p.map (fun m => Json.mkObj [("c", jNat m.coef), ("v", jArr (m.vars.map Json.str))]))
+    pure (Json.mkObj [("vars", jArr (sys.vars.map (fun p => jArr [Json.str p.1, jNat p.2]))),
+                      ("eqns", jArr (sys.eqns.map (fun e => jArr [polyJ e.lhs, polyJ e.rhs])))])
   | k => throw s!"unknown cse_trees kind {k}"
 
 end Einx.Driver.CseTrees
